@@ -428,6 +428,37 @@ class Interp:
                 return np.minimum(r.astype(np.int64), i - 1)
 
             return [x[:, idx(oh, h)][:, :, idx(ow, w)]]
+        if code == "RESIZE_BILINEAR":
+            it = T[ins[0]]
+            if it["dtype"] not in ("int8", "uint8", "int16"):
+                raise Unsupported("RESIZE_BILINEAR on %s" % it["dtype"])
+            x = self.get(values, ins[0]).astype(I64)
+            n, h, w, c = x.shape
+            oh, ow = [int(v) for v in self.get(values, ins[1]).flatten()]
+            align, half = bool(opts.get("AlignCorners")), bool(opts.get("HalfPixelCenters"))
+
+            def interp(o, i):
+                # reference_ops::ResizeBilinearInteger / ComputeInterpolationValuesInteger (10 fractional bits, C++ truncating division)
+                scale = ((1 << 10) * i + o // 2) // o
+                if align and o > 1:
+                    scale = ((1 << 10) * (i - 1) + (o - 1) // 2) // (o - 1)
+                v = np.arange(o, dtype=I64)
+                sv = v * scale + (scale // 2 - (1 << 9) if half else 0)
+                trunc = np.where(sv >= 0, sv >> 10, -((-sv) >> 10))
+                lo = np.minimum(np.maximum(trunc, 0), i - 1)
+                t2 = sv + (1 << 10) - 1
+                up = np.minimum(np.where(t2 >= 0, t2 >> 10, -((-t2) >> 10)), i - 1)
+                return sv, lo, up
+
+            sy, y0, y1 = interp(oh, h)
+            sx, x0, x1 = interp(ow, w)
+            fy = (sy - (y0 << 10))[None, :, None, None]
+            fx = (sx - (x0 << 10))[None, None, :, None]
+            g = lambda yy, xx: x[:, yy][:, :, xx]
+            out20 = g(y0, x0) * ((1 << 10) - fy) * ((1 << 10) - fx) + g(y1, x0) * fy * ((1 << 10) - fx) + g(y0, x1) * ((1 << 10) - fy) * fx + g(y1, x1) * fy * fx
+            rnd = np.where(out20 > 0, 1 << 19, -(1 << 19))
+            t3 = out20 + rnd
+            return [np.where(t3 >= 0, t3 >> 20, -((-t3) >> 20))]
         raise Unsupported("no reference kernel for %s" % (o["custom_code"] or code))
 
     def run(self, inputs):
